@@ -190,13 +190,16 @@ Definition hts (h : hst) : nat := match h with HTs | HPassed => 1 | _ => 0 end.
 (* commit timestamps begun (txnMark.Begin) and not yet done *)
 Definition inflight_ts (s : st) : nat := hts (hold s) + reqs s.
 
+Definition is_passed (h : hst) : bool := match h with HPassed => true | _ => false end.
+Definition is_gpassed (x : gst) : bool := match x with GPassed => true | _ => false end.
+Definition is_cexit (x : cst) : bool := match x with CExit => true | _ => false end.
+Definition is_cl0 (x : cst) : bool := match x with CL0 => true | _ => false end.
+Definition is_clib (x : cst) : bool := match x with CLi true => true | _ => false end.
+
 Definition all_exited (s : st) : bool :=
-  match c0 s with CExit => true | _ => false end
-  && (oidle s =? 0) && (ol0 s =? 0) && (oli s =? 0) && (olib s =? 0).
-Definition l0_running (s : st) : bool :=
-  match c0 s with CL0 => true | _ => false end || negb (ol0 s =? 0).
-Definition l0_blocked (s : st) : bool :=
-  match c0 s with CLi true => true | _ => false end || negb (olib s =? 0).
+  is_cexit (c0 s) && (oidle s =? 0) && (ol0 s =? 0) && (oli s =? 0) && (olib s =? 0).
+Definition l0_running (s : st) : bool := is_cl0 (c0 s) || negb (ol0 s =? 0).
+Definition l0_blocked (s : st) : bool := is_clib (c0 s) || negb (olib s =? 0).
 (* a level-0 compaction can be picked: score >= 1 and there is a table *)
 Definition l0_pickable (c : cfg) (s : st) : bool :=
   (cT c <=? l0 s) && (1 <=? l0 s) && negb (l0_running s) && negb (l0_blocked s).
@@ -219,8 +222,7 @@ Definition step (strict : bool) (c : cfg) (s : st) (l : lab) : option st :=
   | E_close =>                                   (* db.blockWrites.Store(1); db.isClosed.Store(1) *)
       match clo s, drp s with
       | CNot, DNone =>
-          if strict && (match hold s with HPassed => true | _ => false end
-                        || match g s with GPassed => true | _ => false end) then None
+          if strict && (is_passed (hold s) || is_gpassed (g s)) then None
           else Some (s |> set_bw true |> set_clo CGC)
       | _, _ => None
       end
